@@ -29,6 +29,8 @@ type Case struct {
 	Faults []vlib.NCFault `json:"faults"` // one per step
 	// Wire: instead of a history over the fake driver, one Set through the real driver wrapper over a canned session
 	Wire *WireCase `json:"wire,omitempty"`
+	// Stub: one Set over the fake driver whose context ends during a driver call
+	Stub *StubCase `json:"stub,omitempty"`
 }
 
 func genFault(t *rapid.T) vlib.NCFault {
@@ -56,6 +58,9 @@ func genFault(t *rapid.T) vlib.NCFault {
 }
 
 func gen(t *rapid.T) *Case {
+	if rapid.IntRange(0, 11).Draw(t, "stub-mode") == 5 {
+		return &Case{Stub: genStub(t), Hist: &vlib.HistCase{Universe: "plain", Palette: []string{"a", "b", "c"}}}
+	}
 	if rapid.IntRange(0, 9).Draw(t, "wire-mode") == 4 || os.Getenv("VERIF_C18_WIRE") != "" {
 		return &Case{Wire: genWire(t), Hist: &vlib.HistCase{Universe: "plain", Palette: []string{"a", "b", "c"}}}
 	}
@@ -104,6 +109,9 @@ func ops(calls []vlib.NCCall) string {
 func Exec(c *Case) (nontrivial bool, labels []string, fail *vlib.Failure) {
 	if c.Wire != nil {
 		return execWire(c.Wire)
+	}
+	if c.Stub != nil {
+		return execStub(c.Stub)
 	}
 	ctx := context.Background()
 	env := vlib.MustEnv()
